@@ -14,6 +14,50 @@ def ensure_types():
     outs = [os.path.join(SPEC, "Lib_types.tla"), os.path.join(HARNESS, "data", "types.json")]
     if not all(os.path.exists(o) for o in outs) or min(os.path.getmtime(o) for o in outs) < os.path.getmtime(src):
         sh([sys.executable, src])
+    src = os.path.join(ROOT, "lib", "universe_res.py")
+    outs = [os.path.join(SPEC, "Lib_res.tla"), os.path.join(HARNESS, "data", "res.json")]
+    if not all(os.path.exists(o) for o in outs) or min(os.path.getmtime(o) for o in outs) < os.path.getmtime(src):
+        sh([sys.executable, src])
+
+
+def res_artefacts():
+    """the resource clause (ResSub.tla): replay lines for the checker as it is; TLC refutes the clause for the
+    checker as it is (KF25, KF26) and proves the checker's part of it for the ideal (identities compared)"""
+    ensure_types()
+    pairs = tlc_cached("ressub-pairs", "MC_ResSub", "ResSub.cfg", workers=4, timeout=900, keep=("REPLAY",))
+    tlc_cached("ressub-found", "MC_ResSub", "ResSub_found.cfg", workers=1, timeout=900, keep=("NOTHING",), expect_violation="ClauseArgsInv")
+    tlc_cached("ressub-found2", "MC_ResSub", "ResSub_found2.cfg", workers=1, timeout=900, keep=("NOTHING",), expect_violation="ClauseInv")
+    tlc_cached("ressub-ideal", "MC_ResSub", "ResSub_ideal.cfg", workers=4, timeout=900, keep=("NOTHING",))
+    return pairs
+
+
+def run_resources(report):
+    path, stats = res_artefacts()
+    with gzip.open(path, "rb") as gz:
+        r = subprocess.run([hbin("rescheck"), "--data", os.path.join(HARNESS, "data")], input=gz.read(),
+                           stdout=subprocess.PIPE, stderr=subprocess.PIPE, env=ENV)
+    if r.returncode != 0:
+        raise ToolError("rescheck failed: " + r.stderr.decode(errors="replace")[-2000:])
+    findings, summary = [], None
+    for line in r.stdout.decode().splitlines():
+        v = json.loads(line)
+        if v.get("summary"):
+            summary = v
+        else:
+            findings.append(v)
+    ref = [f for f in findings if f["class"] == "res_ref"]
+    if ref:
+        raise ToolError("ResSub.tla's reference layer disagrees with the validator (a defect of the specification): "
+                        + json.dumps(ref[0]))
+    if summary is None or summary["pairs"] == 0 or summary["validated"] == 0:
+        raise ToolError("rescheck replayed nothing")
+    report.add_findings(findings, "rescheck")
+    cov = report.coverage
+    cov["resource_pairs"] = summary["pairs"]
+    cov["resource_arguments_checked"] = summary["args"]
+    cov["resource_pairs_all_accepted_and_validated"] = summary["validated"]
+    cov["resource_model_states"] = stats["distinct"]
+    return summary, stats
 
 
 def artefacts(tier):
@@ -45,15 +89,26 @@ def run_property(prop, tier, report):
             findings.append(v)
     report.add_findings(findings, "typecheck")
     cov = report.coverage
-    cov["states"] = ps["distinct"] + ms["distinct"]
-    cov["transitions"] = max(ps["generated"] + ms["generated"], 1)
-    cov["traces_validated_against_impl"] = summary["pairs"]
+    rsum, rstats = run_resources(report)
+    cov["states"] = ps["distinct"] + ms["distinct"] + rstats["distinct"]
+    cov["transitions"] = max(ps["generated"] + ms["generated"] + rstats["generated"], 1)
+    cov["traces_validated_against_impl"] = summary["pairs"] + rsum["pairs"]
     cov["kinds"] = summary["kinds"]
     cov["ordered_pairs_three_way"] = summary["pairs"]
     cov["checks_through_a_shared_memo"] = summary["memo_checks"]
     cov["pairs_wired_and_encoded"] = summary["wired"]
     cov["memo_model_states"] = ms["distinct"]
     cov["exhaustive"] = True
+    cov["resource_rule"] = ("ResSub.tla: every (provider, consumer) pair of the 41-side resource universe (interfaces `types`, "
+                            "`other`, `api`, `api2`; a user's resource defined by itself or used from `types.res`, `types.res2` "
+                            "(renamed) or `other.res`; own/borrow handles): the provider defines the resources and exports the "
+                            "instances, every import of the consumer the provider has an export for is supplied with it; the "
+                            "per-argument verdict of set_instantiation_argument must equal the Impl layer (resources compared by "
+                            "the name of the resolved resource) and, when all were accepted, wasmparser's verdict on the encoded "
+                            "composition must equal the reference layer (resource identity through the binding of the supplied "
+                            "arguments).  TLC refutes the clause for the checker as it is (KF25: equal names, different "
+                            "resources; KF26: an import left over that uses a resource of a supplied import) and proves the "
+                            "checker's part for identities compared (ResSub_ideal.cfg)")
     cov["rule"] = ("every ordered pair of the 143-kind universe (value types of depth <= 2 over all constructors with "
                    "renames/arity/arm variations wrapped as function parameters, function types incl. async, instances "
                    "and components with width/depth variations): Types.tla's Sub, wasmparser's is_subtype_of on the two "
@@ -62,4 +117,5 @@ def run_property(prop, tier, report):
                    "pairs are wired with set_instantiation_argument and the encoding validated; the memo machine of "
                    "SubRel.tla is model checked for all orders of up to 2 (3) checks")
     cov["samples"] = [{"pair": [3, 5]}, {"note": "kind i is harness/data/types.json[i-1]"}]
-    report.assumptions.append("core module types and value-kinded items are not in the universe; resources only through the graph libraries")
+    report.assumptions.append("value-kinded items are not in the universe; resources: interfaces of one or two resources with "
+                              "one handle-taking function each, one provider per consumer (the clause speaks of one provider)")
